@@ -13,6 +13,7 @@ import GE.Model.Number
 import GE.Model.AttrLoop
 import GE.Model.Position
 import GE.Model.Escape
+import GE.Model.Mixture
 import GE.Model.ExprStr
 import GE.Model.BindingMap
 import GE.Model.CssIO
@@ -146,6 +147,32 @@ def step (fs : List String) : String :=
     let t : GE.Esc.Tables := ⟨fun n => (tbl.find? (·.1 == n)).map (·.2), num⟩
     let cs := chars src
     esc (str (GE.Esc.decode t (cs.length + 1) cs))
+  | "mix_scan" :: src :: pairs =>
+    -- value parser model on `src`
+    let tbl : List (List Char × List Char) := pairs.filterMap fun kv =>
+      match (chars kv).span (· != '=') with
+      | (k, _ :: v) => some (k, v)
+      | _ => none
+    let hexVal (c : Char) : Nat := if '0' ≤ c ∧ c ≤ '9' then c.toNat - 48 else if 'a' ≤ c ∧ c ≤ 'f' then c.toNat - 87 else c.toNat - 55
+    let num (isHex : Bool) (ds : List Char) : Option (List Char) :=
+      if ds.isEmpty then none else
+      let v := ds.foldl (fun a c => a * (if isHex then 16 else 10) + hexVal c) 0
+      if v < 0x110000 ∧ ¬ (0xD800 ≤ v ∧ v < 0xE000) ∧ v < 2 ^ 32 then some [Char.ofNat v] else none
+    let t : GE.Esc.Tables := ⟨fun n => (tbl.find? (·.1 == n)).map (·.2), num⟩
+    let cs := chars src
+    let ps := GE.Mix.scan t GE.Mix.bindAt (cs.length + 1) cs
+    let show1 (p : GE.Mix.Piece) : String := match p with
+      | .text s => "T" ++ str s
+      | .bind e => "B" ++ str e
+    esc (String.intercalate "\x01" (ps.map show1))
+  | ["mix_print", pieces] =>
+    -- value printer model on pieces `T…` / `B…` separated by U+0001
+    let ps : List GE.Mix.Piece := (if pieces.isEmpty then [] else pieces.splitOn "\x01").filterMap fun x =>
+      match chars x with
+      | 'T' :: r => some (.text r)
+      | 'B' :: r => some (.bind r)
+      | _ => none
+    esc (str (GE.Mix.printPieces ps))
   | ["positions", src, steps] =>
     let utf8 (c : Char) : Nat := if c.toNat < 0x80 then 1 else if c.toNat < 0x800 then 2 else if c.toNat < 0x10000 then 3 else 4
     let rec takeBytes (n : Nat) (acc : List Char) : List Char → List Char × List Char
